@@ -17,7 +17,9 @@ EXTENDS Integers, Sequences, FiniteSets, TLC
 Text == <<0, 0>>                        \* a non-numeric token (header word); cells are <<row, column>> with row >= 1
 Undefined == <<0, 0, <<>>>>             \* the reader would divide by zero
 HeaderLines(h) == h                     \* h = number of lines the header string occupies (0 = no header)
-FileOf(rows, cols, h) == [i \in 1..(h + rows) |-> IF i <= h THEN <<Text, Text>> ELSE [j \in 1..cols |-> <<i - h, j>>]]
+\* header lines may be blank (bit i of hb set <=> header line i has no token at all): the reader counts lines, whatever they contain
+FileOfB(rows, cols, h, hb) == [i \in 1..(h + rows) |-> IF i <= h THEN (IF (hb \div (2 ^ (i - 1))) % 2 = 1 THEN <<>> ELSE <<Text, Text>>) ELSE [j \in 1..cols |-> <<i - h, j>>]]
+FileOf(rows, cols, h) == FileOfB(rows, cols, h, 0)
 RECURSIVE Flatten(_,_)
 Flatten(file, i) == IF i > Len(file) THEN <<>> ELSE file[i] \o Flatten(file, i + 1)
 RECURSIVE NumericPrefix(_)
@@ -34,5 +36,7 @@ RoundTripOK(rows, cols, h) ==
   LET r == ImportTable(FileOf(rows, cols, h), h) IN
   /\ r # Undefined /\ r[1] = rows /\ r[2] = cols
   /\ \A i \in 1..rows, j \in 1..cols : r[3][i][j] = <<i, j>>
+RoundTripBlankOK(rows, cols, h, hb) ==
+  LET r == ImportTable(FileOfB(rows, cols, h, hb), h) IN r # Undefined /\ r[1] = rows /\ r[2] = cols /\ \A i \in 1..rows, j \in 1..cols : r[3][i][j] = <<i, j>>
 ListRoundTripOK(rows, h) == ImportList(FileOf(rows, 1, h), h) = [i \in 1..rows |-> <<i, 1>>]
 =============================================================================
